@@ -2543,6 +2543,35 @@ theorem c15_no_forwarder_on_nil_channel (caps : Caps) (m₀ : CMsg) (sched : Lis
   obtain ⟨k, hk⟩ := List.getElem?_of_mem hst
   exact nilL_running hN hk hf
 
+/-- **whoever still waits, waits for something that can happen** (`c15_nothing_stuck` with the nil
+channels excluded): in every reachable quiescent state a forwarder has ended or waits on a real
+channel its service has not closed yet — never on a nil channel, never with a value in its hands —
+and the stopper of every refused request (a nil channel's included) has run. -/
+theorem c15_waiting_forwarders_wait_on_real_channels (caps : Caps) (hin : 0 < caps.inCap) (hout : 0 < caps.outCap)
+    (m₀ : CMsg) (sched : List Act) :
+    let s := run .fixed caps (init m₀) sched
+    Quiet caps s →
+      (∀ st ∈ s.streams, st.fwd = .done ∨ (st.fwd = .recv ∧ st.chanClosed = false ∧ st.noOut = false)) ∧
+      (∀ st ∈ s.streams, st.noOut = true → st.fwd = .done ∧ st.stopClosed = true) := by
+  intro s hq
+  obtain ⟨_, _, _, hf, hst, _⟩ := c15_nothing_stuck caps hin hout m₀ sched hq
+  obtain ⟨hn1, hn2⟩ := c15_no_forwarder_on_nil_channel caps m₀ sched
+  refine ⟨fun st hm => ?_, fun st hm hno => ?_⟩
+  · rcases hf st hm with h | ⟨h1, h2⟩
+    · exact Or.inl h
+    · exact Or.inr ⟨h1, h2, hn2 st hm (by rw [h1]; simp)⟩
+  · obtain ⟨hd, hr⟩ := hn1 st hm hno
+    exact ⟨hd, hst st hm (Or.inr hr)⟩
+
+/-- non-vacuity: a quiescent state with a healthy waiting forwarder and a refused nil channel -/
+example :
+    let s := run .fixed caps10 (init .fresh) [.aStep, .cSend .noout, .rStep, .rStep, .aStep, .stop 0, .stop 1]
+    (s.streams.map (fun st => (st.fwd, st.noOut, st.stopClosed))) = [(.recv, false, true), (.done, true, true)] ∧
+    s.ended = true ∧ s.outClosed = false ∧
+    step .fixed caps10 s .rStep = none ∧ step .fixed caps10 s .aStep = none ∧ step .fixed caps10 s .wOut = none ∧
+    step .fixed caps10 s (.fStep 0 0) = none ∧ step .fixed caps10 s (.stop 0) = none ∧ step .fixed caps10 s (.stop 1) = none := by
+  decide
+
 /-- the actions of onet's goroutines on a connection with one channel -/
 def internal1 : List Act := [.rStep, .rLeave, .aStep, .wOut, .wClosing, .wOutFail, .stop 0, .fStep 0 0, .fDrop 0 0]
 
